@@ -600,21 +600,21 @@ class IrToWasmCompiler:
         "F32TOF64": ["f64.promote_f32"],
         # 32 -- 64
         "I32TOI64": ["i64.extend_i32_s"],
-        "I32TOU64": ["i64.extend_i32_u"],
+        "I32TOU64": ["i64.extend_i32_s"],
         # i64 -- 32
         "U64TOI32": ["i32.wrap_i64"],
         "I64TOI32": ["i32.wrap_i64"],
-        # Store u32 in i64 type:
-        "I32TOU32": ["i64.extend_i32_s"],
+        # Store u32 in i64 type, with the upper 32 bits zero:
+        "I32TOU32": ["i64.extend_i32_u"],
         "U32TOI32": ["i32.wrap_i64"],
         # 32 --- 8
         "U32TOI8": ["i32.wrap_i64"],
-        "I8TOU32": ["i64.extend_i32_s"],
+        "I8TOU32": ["i64.extend_i32_u"],
         "U32TOU8": ["i32.wrap_i64"],
         "U8TOU32": ["i64.extend_i32_u"],
         # 32 --- 16
         "U32TOI16": ["i32.wrap_i64"],
-        "I16TOU32": ["i64.extend_i32_s"],
+        "I16TOU32": ["i64.extend_i32_u"],
         "U32TOU16": ["i32.wrap_i64"],
         "U16TOU32": ["i64.extend_i32_u"],
     }
